@@ -5,6 +5,7 @@ import GenjaxModel.Proofs.GfiAssessCond
 import GenjaxModel.Proofs.GfiValues
 import GenjaxModel.Proofs.GfiGenSum  -- (c01law block at the end of this file)
 import GenjaxModel.Proofs.GfiGenTie  -- (c01law block at the end of this file)
+import GenjaxModel.Proofs.GfiGenLawCondSum  -- (c02lawcond block at the end of this file)
 /-!
 # C02 — generate honours constraints and returns the proper importance weight
 (theorems about `GF.generate`, every program / constraint map / argument list / variant `cfg`)
@@ -77,7 +78,8 @@ end Genjax
   the constraint map `x` addresses" (`y` is a completion of `x`).
   All theorems of this block are `_partial`: Cond-free programs (a Cond evaluates `generate` on BOTH
   branches under the same constraints, so the hidden branch is not drawn from the program's own
-  distribution; not formalised).  `g.vmapOK cfg`: every Vmap accepts an empty constraint in variant
+  distribution; formalised in the c02lawcond block at the end of this file, which supersedes them).
+  `g.vmapOK cfg`: every Vmap accepts an empty constraint in variant
   `cfg` (always true for `Cfg.spec`; for `Cfg.asis` it requires Vmaps without mapped arguments,
   cf. `C02_vmap_generate_none_asis`). -/
 namespace Genjax
@@ -347,3 +349,230 @@ end Genjax
     END work package `gfivalues`
     ============================================================================================== -/
 
+
+/-! ==============================================================================================
+    BEGIN work package `c02lawcond`: `generate` IS PROPERLY WEIGHTED FOR PROGRAMS WITH COND
+    (proofs: Proofs/GfiGenSupp.lean, Proofs/GfiGenLawCond.lean, Proofs/GfiGenLawCondSum.lean;
+    notation as in the c01law block above).
+
+    The `_partial` theorems of the c01law block assume `g.condFree`.  Here `condFree` is replaced by
+    `g.condOK = true` (at every Cond the two branches have the same static choice-map skeleton and no
+    address collision) plus `pd.Normalised` (every primitive has total mass 1 — needed to marginalise
+    the unconstrained draws of the HIDDEN branch: `Cond.generate` runs both branches under the
+    constraint and returns the taken branch's weight only).  Mixed-shape Conds are excluded for a
+    reason: `C02_generate_biased_on_mixed_cond`.
+    ============================================================================================== -/
+namespace Genjax
+open Smc Smc.FinDist
+
+section C02LawCond
+variable {K : Type} [Field K] {R : Type} [AddCommGroup R] (pd : PD K) (P : Prims R) (cfg : Cfg)
+
+/-- **Proper weighting outcome by outcome — every program whose Conds are `condOK`** (Cond at any
+    depth: under Fn, Vmap, Scan, nested).  For every constraint map `ox` (none, partial, full, or of
+    the wrong kind), every argument list and every complete choice map `y` of the program's shape,
+    `E_{(t,w) ∼ generate}[w · 1{choices t = y}]` is the density `assessP y` if `y` is a completion of
+    the constraints and 0 otherwise.  Supersedes `C02_generate_pointwise_partial`. -/
+theorem C02_generate_pointwise (hpd : pd.WF) (hnorm : pd.Normalised) (g : GF)
+    (hc : g.condOK = true) (hv : g.vmapOK cfg = true) (ox : Option CM) (args : List Val) (y : CM)
+    (hs : g.skel = some y.skel) :
+    E (g.generateD pd P cfg ox args) (optK fun tw => if tw.1.choices = some y then tw.2 else 0)
+      = agO ox y * pmassOf (g.assessP pd y args) := by
+  have := genlaw_gf pd P cfg hpd hnorm g hc hv ox args y (fun _ => 1) hs
+  rw [massOf_one] at this
+  rw [← this]
+  congr 2
+  funext tw
+  simp only [choicesAre, mul_ite, mul_one, mul_zero]
+
+/-- the same with a function `ψ` of the return value: the return value `generate` reports on the
+    choice map `y` is the one `assess` reports -/
+theorem C02_generate_pointwise_retval (hpd : pd.WF) (hnorm : pd.Normalised) (g : GF)
+    (hc : g.condOK = true) (hv : g.vmapOK cfg = true) (ox : Option CM) (args : List Val) (y : CM)
+    (ψ : Val → K) (hs : g.skel = some y.skel) :
+    E (g.generateD pd P cfg ox args) (optK fun tw => tw.2 * choicesAre y ψ tw.1)
+      = agO ox y * massOf (g.assessP pd y args) ψ :=
+  genlaw_gf pd P cfg hpd hnorm g hc hv ox args y ψ hs
+
+/-- **Proper weighting in test-function form — programs with Cond**: for every function `F` of the
+    OBSERVABLE trace (choice map `get_choices()` and return value; `obsF F t = F y t.retval` when
+    `t.choices = some y`, and 0 when `get_choices()` raises — it never does on these programs),
+    `E_{(t,w) ∼ generate}[w · F(t)] = E_{t ∼ simulate}[1{t agrees with the constraints} · F(t)]`.
+    For Cond-free programs `C02_generate_proper_weight_partial` has this for every function of the
+    trace; with Cond that stronger form is FALSE (`C02_generate_hidden_branch_not_prior`): the hidden
+    branch's trace is not distributed as under `simulate`. -/
+theorem C02_generate_proper_weight (hpd : pd.WF) (hnorm : pd.Normalised) (g : GF)
+    (hc : g.condOK = true) (hv : g.vmapOK cfg = true) (ox : Option CM) (args : List Val)
+    (F : CM → Val → K) :
+    E (g.generateD pd P cfg ox args) (optK fun tw => tw.2 * obsF F tw.1)
+      = E (g.simD pd P args) (optK fun t => t.agT ox * obsF F t) :=
+  generateD_law_obs pd P cfg hpd hnorm g hc hv ox args F
+
+/-- **E[weight] = marginal likelihood of the constraints — programs with Cond**: the expected
+    importance weight is the probability, under the program's own distribution (`simD`, whose law is
+    the density `assess` computes: `C01_simulate_law`), that the trace takes the constrained values.
+    Supersedes `C02_generate_unbiased_partial`. -/
+theorem C02_generate_unbiased (hpd : pd.WF) (hnorm : pd.Normalised) (g : GF)
+    (hc : g.condOK = true) (hv : g.vmapOK cfg = true) (x : CM) (args : List Val) :
+    E (g.generateD pd P cfg (some x) args) (optK fun tw => tw.2)
+      = E (g.simD pd P args) (optK fun t => t.agS x) :=
+  generateD_unbiased_cond pd P cfg hpd hnorm g hc hv x args
+
+/-- each complete choice map `y` of the program's shape contributes to that marginal likelihood its
+    density `assessP y` if it is a completion of `x`, and nothing otherwise (supersedes
+    `C02_completion_mass_partial`) -/
+theorem C02_completion_mass (hpd : pd.WF) (hnorm : pd.Normalised) (g : GF) (hc : g.condOK = true)
+    (x y : CM) (args : List Val) (hs : g.skel = some y.skel) :
+    E (g.simD pd P args) (optK fun t => if t.choices = some y then t.agS x else 0)
+      = if y.agreeWith x then pmassOf (g.assessP pd y args) else 0 :=
+  simD_completion_mass_cond pd P hpd hnorm g hc x y args hs
+
+/-- **E[weight] = Σ over the completions `y ⊇ x` of `assessP y` — programs with Cond**, for any list
+    `ys` of distinct choice maps of the program's shape containing every choice map `simulate` can
+    produce (`coversB` is an executable check of that).  Supersedes
+    `C02_generate_unbiased_sum_partial`. -/
+theorem C02_generate_unbiased_sum (hpd : pd.WF) (hnorm : pd.Normalised) (g : GF)
+    (hc : g.condOK = true) (hv : g.vmapOK cfg = true) (x : CM) (args : List Val) (ys : List CM)
+    (hnd : ys.Nodup)
+    (hcov : ∀ t, some t ∈ supp (g.simD pd P args) → ∃ y ∈ ys, t.choices = some y)
+    (hshape : ∀ y ∈ ys, g.skel = some y.skel) :
+    E (g.generateD pd P cfg (some x) args) (optK fun tw => tw.2)
+      = sumK (ys.map fun y => if y.agreeWith x then pmassOf (g.assessP pd y args) else 0) :=
+  generateD_unbiased_sum_cond pd P cfg hpd hnorm g hc hv x args ys hnd hcov hshape
+
+/-- **`generate` never raises under a completable constraint**: on a program without address
+    collisions whose Conds are `condOK` and whose Vmaps accept an empty constraint, if the constraint
+    map `ox` has a completion `y` of the program's shape (`agOb ox y`: no constraint, or
+    `y.agreeWith x`), every run of `generate` returns — the successful outcomes carry all the mass.
+    (This is what the hidden branch of a Cond needs.) -/
+theorem C02_generate_defined_on_completable (hnorm : pd.Normalised) (g : GF)
+    (hn : g.noCollide = true) (hc : g.condOK = true) (hv : g.vmapOK cfg = true) (ox : Option CM)
+    (y : CM) (args : List Val) (hs : g.skel = some y.skel) (ha : agOb ox y = true) :
+    none ∉ supp (g.generateD pd P cfg ox args) ∧
+      E (g.generateD pd P cfg ox args) (optK fun _ => (1 : K)) = 1 :=
+  ⟨generateD_nofail pd P cfg g hn hc hv ox y args hs ha,
+    generateD_mass_some pd P cfg hnorm g hn hc hv ox y args hs ha⟩
+
+/-- every trace `generate` can return (any program, any constraint) has a choice map with the
+    program's static skeleton — the distributional form of `C02_generate_choices_skel` -/
+theorem C02_generateD_choices_skel (g : GF) (ox : Option CM) (args : List Val) (tw : Tr R × K)
+    (h : some tw ∈ supp (g.generateD pd P cfg ox args)) : tw.1.choices.map CM.skel = g.skel :=
+  generateD_choices_skel pd P cfg g ox args tw h
+
+end C02LawCond
+
+/-! ### non-vacuity (exact rationals) -/
+
+/-- a Scan whose step is a same-shape Cond: the carry (the previous draw) is the check;
+    true branch `x ~ coin(1/4)`, false branch `x ~ three-valued`; both return `(x, ·)` -/
+def lawExCondStep : GF :=
+  .cond (.fn (.call "x" (.dist 0) [.const (1/4)] (.ret (.pair (.var 1) (.var 1)))))
+        (.fn (.call "x" (.dist 1) [] (.ret (.pair (.var 1) (.add (.var 1) (.const 10))))))
+
+def lawExCondScan : GF := .scan lawExCondStep 2
+
+def lawExCondScanArgs : List Val := [.num 1, Val.ofList [.num 0, .num 0]]
+
+def lawExCondScanX (a b : Rat) : CM :=
+  .lanes (.cons "" (.node (.cons "x" (.leaf (.num a)) .nil))
+    (.cons "" (.node (.cons "x" (.leaf (.num b)) .nil)) .nil))
+
+/-- step 1 unconstrained (empty dict), step 2 constrained to `x = 1` -/
+def lawExCondScanC : CM :=
+  .lanes (.cons "" (.node .nil) (.cons "" (.node (.cons "x" (.leaf (.num 1)) .nil)) .nil))
+
+/-- Same-shape Cond UNDER SCAN: all hypotheses of `C02_generate_unbiased` / `C02_generate_pointwise`
+    hold and both sides are computed.  Step 1 takes the true branch (`x₁ = 1` w.p. 1/4); step 2 takes
+    the true branch if `x₁ = 1` (then `P(x₂ = 1) = 1/4`) and the false branch otherwise
+    (`P(x₂ = 1) = 1/3`): `E[w] = 1/4·1/4 + 3/4·1/3 = 5/16 = P(x₂ = 1)`; and pointwise at
+    `y = (x₁, x₂) = (0, 1)`: `E[w·1{choices = y}] = 3/4·1/3 = 1/4 = assessP y`, at `y = (0, 2)` (not a
+    completion) both sides are 0. -/
+example : lawExPD.WF ∧ lawExPD.Normalised ∧ lawExCondScan.condOK = true ∧
+    lawExCondScan.vmapOK Cfg.asis = true ∧
+    lawExCondScan.skel = some (lawExCondScanX 0 1).skel ∧
+    E (lawExCondScan.generateD lawExPD lawExP Cfg.asis (some lawExCondScanC) lawExCondScanArgs)
+      (optK fun tw => tw.2) = 5/16 ∧
+    E (lawExCondScan.simD lawExPD lawExP lawExCondScanArgs) (optK fun t => t.agS lawExCondScanC)
+      = 5/16 ∧
+    E (lawExCondScan.generateD lawExPD lawExP Cfg.asis (some lawExCondScanC) lawExCondScanArgs)
+      (optK fun tw => if tw.1.choices = some (lawExCondScanX 0 1) then tw.2 else 0) = 1/4 ∧
+    agO (some lawExCondScanC) (lawExCondScanX 0 1)
+      * pmassOf (lawExCondScan.assessP lawExPD (lawExCondScanX 0 1) lawExCondScanArgs) = 1/4 ∧
+    E (lawExCondScan.generateD lawExPD lawExP Cfg.asis (some lawExCondScanC) lawExCondScanArgs)
+      (optK fun tw => if tw.1.choices = some (lawExCondScanX 0 2) then tw.2 else 0) = 0 ∧
+    agO (some lawExCondScanC) (lawExCondScanX 0 2)
+      * pmassOf (lawExCondScan.assessP lawExPD (lawExCondScanX 0 2) lawExCondScanArgs) = 0 := by
+  refine ⟨lawExPD_wf, lawExPD_normalised, by decide +kernel, by decide +kernel, by decide +kernel,
+    by decide +kernel, by decide +kernel, by decide +kernel, by decide +kernel, by decide +kernel,
+    by decide +kernel⟩
+
+/-- the five complete choice maps `simulate` can produce for `lawExCondScan` on `lawExCondScanArgs`
+    (`x₁ ∈ {0, 1}`; `x₂ ∈ {0, 1}` after `x₁ = 1`, `x₂ ∈ {0, 1, 2}` after `x₁ = 0`) -/
+def lawExCondScanYs : List CM :=
+  [lawExCondScanX 0 0, lawExCondScanX 0 1, lawExCondScanX 0 2, lawExCondScanX 1 0,
+   lawExCondScanX 1 1]
+
+/-- all hypotheses of `C02_generate_unbiased_sum` on the Scan of a Cond, and the sum computed:
+    `Σ_{y ⊇ x} assessP y = 3/4·1/3 + 1/4·1/4 = 5/16 = E[w]` (previous example) -/
+example : lawExCondScanYs.Nodup ∧
+    (∀ t, some t ∈ supp (lawExCondScan.simD lawExPD lawExP lawExCondScanArgs) →
+      ∃ y ∈ lawExCondScanYs, t.choices = some y) ∧
+    (∀ y ∈ lawExCondScanYs, lawExCondScan.skel = some y.skel) ∧
+    sumK (lawExCondScanYs.map fun y => if y.agreeWith lawExCondScanC
+      then pmassOf (lawExCondScan.assessP lawExPD y lawExCondScanArgs) else 0) = 5/16 := by
+  refine ⟨by decide +kernel, covers_of_coversB _ _ (by decide +kernel), by decide +kernel,
+    by decide +kernel⟩
+
+/-- Cond at top level (`lawExCond`, false branch selected, constraint `{x: 1}`): hypotheses and both
+    sides of `C02_generate_unbiased`; and `C02_generate_defined_on_completable`'s hypotheses -/
+example : lawExCond.condOK = true ∧ lawExCond.noCollide = true ∧
+    lawExCond.vmapOK Cfg.asis = true ∧
+    lawExCond.skel = some (CM.node (.cons "x" (.leaf (.num 1)) .nil)).skel ∧
+    agOb (some (.node (.cons "x" (.leaf (.num 1)) .nil)))
+      (.node (.cons "x" (.leaf (.num 1)) .nil)) = true ∧
+    E (lawExCond.generateD lawExPD lawExP Cfg.asis
+        (some (.node (.cons "x" (.leaf (.num 1)) .nil))) [.num 0]) (optK fun tw => tw.2) = 1/3 ∧
+    E (lawExCond.simD lawExPD lawExP [.num 0])
+      (optK fun t => t.agS (.node (.cons "x" (.leaf (.num 1)) .nil))) = 1/3 ∧
+    E (lawExCond.generateD lawExPD lawExP Cfg.asis
+        (some (.node (.cons "x" (.leaf (.num 1)) .nil))) [.num 0]) (optK fun _ => (1 : ℚ)) = 1 := by
+  refine ⟨by decide +kernel, by decide +kernel, by decide +kernel, by decide +kernel,
+    by decide +kernel, by decide +kernel, by decide +kernel, by decide +kernel⟩
+
+/-- `C02_generate_proper_weight` with a non-constant observable: `F(choices, retval) = retval`.
+    False branch selected, `x` constrained to 1, return value `x + 10 = 11`:
+    `E_gen[w · retval] = 1/3 · 11 = E_sim[1{x = 1} · retval]` -/
+example :
+    E (lawExCond.generateD lawExPD lawExP Cfg.asis
+        (some (.node (.cons "x" (.leaf (.num 1)) .nil))) [.num 0])
+      (optK fun tw => tw.2 * obsF (fun _ r => r.toRat) tw.1) = 11/3 ∧
+    E (lawExCond.simD lawExPD lawExP [.num 0])
+      (optK fun t => t.agT (some (.node (.cons "x" (.leaf (.num 1)) .nil)))
+        * obsF (fun _ r => r.toRat) t) = 11/3 := by
+  refine ⟨by decide +kernel, by decide +kernel⟩
+
+/-- test function looking INSIDE a Cond trace: 1 if the TRUE-branch trace holds `x = 1` -/
+def hiddenIsOne (t : Tr ℤ) : ℚ :=
+  match t with
+  | .cond _ a _ => if a.choices = some (.node (.cons "x" (.leaf (.num 1)) .nil)) then 1 else 0
+  | _ => 0
+
+/-- With a Cond, proper weighting does NOT hold against arbitrary functions of the trace (it does
+    for Cond-free programs, `C02_generate_proper_weight_partial`), only against functions of the
+    observable trace (`C02_generate_proper_weight`).  `lawExCond`, false branch selected, constraint
+    `{x: 1}`: `generate` hands the constraint to the hidden true branch too, whose trace then holds
+    `x = 1` on every run, while under `simulate` the hidden branch draws `x = 1` with probability
+    `1/3`: `E_gen[w·φ] = 1/3 ≠ 1/9 = E_sim[1{agrees}·φ]` for `φ = hiddenIsOne`. -/
+theorem C02_generate_hidden_branch_not_prior :
+    lawExCond.condOK = true ∧
+    E (lawExCond.generateD lawExPD lawExP Cfg.asis
+        (some (.node (.cons "x" (.leaf (.num 1)) .nil))) [.num 0])
+      (optK fun tw => tw.2 * hiddenIsOne tw.1) = 1/3 ∧
+    E (lawExCond.simD lawExPD lawExP [.num 0])
+      (optK fun t => t.agS (.node (.cons "x" (.leaf (.num 1)) .nil)) * hiddenIsOne t) = 1/9 := by
+  refine ⟨by decide +kernel, by decide +kernel, by decide +kernel⟩
+
+end Genjax
+/-! ==============================================================================================
+    END work package `c02lawcond`
+    ============================================================================================== -/
